@@ -10,8 +10,11 @@ trap 'git -C /repo worktree remove --force '$S'; git -C /repo worktree prune' EX
 git -C $S apply "$PATCH" 2>/dev/null || git -C $S apply --3way "$PATCH" 2>/dev/null || { echo "patch does not apply"; exit 3; }
 cd /verif
 for id in "$@"; do
+  # the run rewrites evidence/<id>.json; what is committed must describe the UNCHANGED tree, so put the file back afterwards
+  cp -f evidence/$id.json /var/tmp/evidence-$id-$$.json 2>/dev/null
   out=$(VERIF_REPO=$S VERIF_BUDGET_S=$BUDGET timeout 1800 ./run check "$id" --tier quick 2>&1)
   code=$?
+  [ -f /var/tmp/evidence-$id-$$.json ] && mv -f /var/tmp/evidence-$id-$$.json evidence/$id.json
   echo "$id exit=$code $(echo "$out" | grep -c '^VIOLATION') violation line(s); $(echo "$out" | grep '^  signature' | head -3 | tr '\n' ' ')"
   echo "$out" | tail -1
 done
